@@ -233,7 +233,23 @@ TEXTS = [
     "\n\n\nint lead(int a) {\n  return a;\n}\n\n\n",                                    # leading and trailing blank lines
     "\n  \ndef lead(a):\n    b = a\n    return b\n",                                          # leading blank / whitespace-only lines
     "function crlf(a) {\r\n  return a;\r\n}\r\n",                                          # CRLF line ends
+    b"def caf\xe9(a):\n  b = a\n  return b\n",                                           # bytes that are not UTF-8 (read through the Latin-1 fallback)
+    "def voil\u00e0(a):\n  b = '\u00e9\u00e8'\n  return b\n".encode("utf-8"),                   # UTF-8 with non-ASCII identifiers (must not be affected by an earlier fallback)
 ]
+
+
+def _bytes_of(t):
+    return t if isinstance(t, bytes) else t.encode("utf-8")
+
+
+def _text_of(t):
+    """what reading the file in text mode yields: UTF-8, else Latin-1; universal newlines"""
+    if isinstance(t, bytes):
+        try:
+            t = t.decode("utf-8")
+        except UnicodeDecodeError:
+            t = t.decode("latin-1")
+    return t.replace("\r\n", "\n").replace("\r", "\n")
 
 
 _SNAP = None
@@ -264,7 +280,7 @@ def _analyze_history(hist):
         for i, (e, t) in enumerate(hist):
             path = f"/w/d{i}/file{i}.{EXTS[e]}"
             lexer = get_lexer_for_filename(path)
-            entry = scn._analyze_file(path, f"d{i}/file{i}.{EXTS[e]}", hashlib.md5(TEXTS[t].encode()).hexdigest(), lexer)
+            entry = scn._analyze_file(path, f"d{i}/file{i}.{EXTS[e]}", hashlib.md5(_bytes_of(TEXTS[t])).hexdigest(), lexer)
             res = (entry.language, entry.loc, _sig(entry.measurements()))
     finally:
         if saved is None:
@@ -273,7 +289,7 @@ def _analyze_history(hist):
             scn.open = saved
     e, t = hist[-1]
     lexer = get_lexer_for_filename("x." + EXTS[e])
-    text = TEXTS[t].replace("\r\n", "\n").replace("\r", "\n")       # what reading the file in text mode yields
+    text = _text_of(TEXTS[t])
     ms = scan_file(lex(lexer, text, False), Languages.by_name[lexer.__class__.name])
     alone = (lexer.__class__.name, sum(m.value for m in ms), _sig(ms))
     return res, alone
